@@ -15,12 +15,36 @@ repaired behaviour is the `c S... = true` branch.  STATE: /repo c5c2382 + dff454
 there), 680d931 repaired SGraphNew; open: SNodeOutputsOwned (graph input / initializer accepted as node output).  `original_cfg`
 (all false) is the code before the repairs.
 
+DEEPENING ROUND (after /repo 680d931 repaired Graph(...)):
+  * `in_scope` is gone.  The repaired constructor is modelled as `graph_new_reject` (validation, same order and exception
+    types as the code) followed by `graph_init`, the constructor body written with the validated mutators
+    (inputs.extend, outputs.extend, initializers[k] = v per entry, name registration, Graph.extend); same final state,
+    intermediate states unobservable since nothing can raise (tie: 356 constructor calls, 38 rejected, 0 mismatches in
+    the development run; every quick run has hundreds).  Hence C01_inv_reachable_fixed / C01_inv_reachable and
+    C06_raise_frame_fixed / C06_raise_frame are the FULL statements over the whole alphabet; the only hypothesis left on
+    the current code is `clean current_cfg`, i.e. the history never executes Node(outputs=[graph input / initializer])
+    (SNodeOutputsOwned, finding node-output-owned, cannot be repaired upstream) nor a rejected initializers.update()
+    with an acceptable entry first (SInitUpdate, new finding init-update-partial, C06 only: I1..I7 hold there anyway).
+  * moved from oracle-only into the Coq alphabet (36 ops now), each with invariant + frame proof and inside the tie:
+    InitPopItem, InitUpdate (sequential self[k] = v, site SInitUpdate), InitSetDefault, InitIOr (unsupported since
+    4b0e698), GSort.  For GSort the ORDER and whether a cycle is found come from the implementation (that is C12's
+    subject); the model fixes how the result is installed (cycle: nothing touched; otherwise Graph.extend of the
+    given order on every graph of the nest, re-registering names) and the tie checks that nothing else changes;
+    gen_nested_sort (2-8 permuted If-like bodies, one cyclic scope) now runs through Coq.
+  * still oracle-only: slices with step / negative bounds, list.sort, register_initializer (needs const_value in the
+    model), `initializers |= m` written on the attribute, X_VSetNameRaw (refused names), merge_shapes, and the
+    convenience functions (multi-pair replace_all_uses_with with its pre-validation, rename_values,
+    replace_nodes_and_values) - not moved for lack of time; the frame proof of the multi-pair call needs the soundness of
+    its ownership simulation, which is the substantial part.
+  * the generator never nests a graph inside itself (a node holding graph S as attribute is not added to S or to a graph
+    reachable from S): Graph.sort / traversal do not terminate on such input (RecursionError), which is outside C01/C06.
+
 THEOREMS (all closed under the global context):
   C01_inv_init
   C01_uses_reachable               forall c ops, I1 (run c ops empty)      -- FULL: every cfg, whole alphabet, rejected calls
   C01_step_preserves_inv           per-op preservation of Inv = I1 /\ I3 /\ (I4 I5 I6 I7), repaired model
-  C01_inv_reachable_fixed_partial  forall ops in scope, InvP (run all_fixed ops empty)
-  C01_inv_reachable_partial        forall ops in scope, clean current_cfg ops -> InvP (run current_cfg ops empty)
+  C01_inv_reachable_fixed          forall ops, InvP (run all_fixed ops empty)
+  C01_inv_reachable                forall ops, clean current_cfg ops -> InvP (run current_cfg ops empty)
                                    (`clean` = the history never takes a branch on which the current code differs from the
                                    repaired code, i.e. avoids exactly the known sites; Example demo_clean shows non-vacuity
                                    with a value that is input + output twice + initializer, 3 graphs, 3 rejected calls)
@@ -31,9 +55,8 @@ THEOREMS (all closed under the global context):
   C01_outputs_reachable_fixed      forall ops, I2 (run all_fixed ops empty)  -- I2 = outputs <-> producer/index, whole alphabet
   C01_outputs_reachable            forall ops, clean current_cfg ops -> I2 (run current_cfg ops empty)
   C01_nodeoutputs_dup_refuted_before_fix   Node(outputs=[x, x]) broke I2 (repaired by dff454e)
-PARTIAL, what is missing: (1) for I3..I7 `in_scope` excludes Graph(...) called WITH arguments (the constructor with
-empty collections followed by the tracked mutators is in scope; I1 and I2 are proved without that restriction);
-(2) no general boolean inv_b: the refutations use clause-specific boolean consequences (need_listed, need_flag, ...);
+NOT PARTIAL any more w.r.t. Graph(...) with arguments (see DEEPENING ROUND).  Remaining gaps: (1) `clean current_cfg`
+(two open sites, above); (2) no general boolean inv_b: the refutations use clause-specific boolean consequences (need_listed, need_flag, ...);
 (3) I2 is stated as its own theorem, not as a conjunct of InvP.
 Not in the model at all (oracle-only stream): slices (setitem/delitem), list.sort, initializers.popitem/update/
 setdefault/|=, Graph.sort, register_initializer, convenience.replace_all_uses_with / rename_values /
@@ -100,8 +123,9 @@ def run(ck) -> None:
     C.run_check(ck, "c01")
     C.print_broken(ck)
     ck.level = "proof"
-    ck.notes.append("C01_inv_reachable is proved as _partial for I3..I7: Graph(...) WITH arguments is outside in_scope "
-                    "(carried by the correspondence check and the oracle only); I1 and I2 are proved for the whole alphabet")
+    ck.notes.append("C01_inv_reachable_fixed (repaired model, every history, whole 36-op alphabet) and C01_inv_reachable "
+                    "(current code, histories that never take the two unrepaired branches SNodeOutputsOwned / SInitUpdate) are "
+                    "full statements; I1 holds for every configuration; convenience functions and stepped slices are oracle-only")
 
 
 def replay(rp: dict) -> int:
